@@ -1324,7 +1324,13 @@ class BaseImage(metaclass=ImageMeta):
 
     def _close_image(self, img: PIL.Image.Image) -> None:
         """Closes the given PIL image instance if it isn't the instance' source."""
-        if img is not self._source:
+        try:
+            is_source = img is self._source
+        except AttributeError:
+            # The instance has been finalized (e.g while an iterator over it still holds
+            # an image). If the source was a PIL image, *img* may be the source itself.
+            is_source = self._source_type is ImageSource.PIL_IMAGE
+        if not is_source:
             img.close()
 
     def _display_animated(
